@@ -176,10 +176,11 @@ def tornVariants (new old : FileBytes) : List FileBytes :=
   let ks := List.range (new.length + 1)
   ks.map (fun k => new.take k) ++ [List.replicate new.length 0] ++ ks.map (fun k => new.take k ++ old.drop k) ++ [old]
 
-/-- **TornRejected**: the loader accepts no torn variant of an encoding other than the encoding itself.
-CRC-32 cannot make this a theorem; it is a hypothesis, evaluated by the harness on every torn image it builds. -/
+/-- **TornRejected**: the loader accepts no torn variant of an encoding other than the encoding itself — and the previous
+file left untouched, which is the old state, not a torn one. CRC-32 cannot make this a theorem; it is a hypothesis,
+evaluated by the harness on every torn image it builds. -/
 def TornRejected {α : Type} (accept : FileBytes → Option α) (new old : FileBytes) : Prop :=
-  ∀ v ∈ tornVariants new old, v ≠ new → accept v = none
+  ∀ v ∈ tornVariants new old, v ≠ new → v ≠ old → accept v = none
 
 /-- the directory entry the model keeps for a snapshot file with bytes `b` written for content `(k, segs)`:
 complete iff the loader accepts the bytes -/
